@@ -100,8 +100,9 @@ def limitSpelling : CharSpelling → Option LimitSp
 spellings decimal number, `0x`/`0X` hexadecimal number (digits in either case), quoted character
 (either quote) and symbolic name (either case) that can express `c`, `_validated_character` returns
 the character `c` itself — so all of them denote the same character as the literal spelling
-(`C11_spelling_literal`).  The backslash-escape spellings inside quotes (`'\x..'`, `'\u....'`) are
-checked by the exhaustive correspondence only. -/
+(`C11_spelling_literal`).  Of the backslash-escape spellings inside quotes, `'\xHH'` is proved for all 256 codes
+(`C11_escaped_hex`, by evaluating the whole table in the kernel); `'\uHHHH'` is checked by the exhaustive correspondence only
+(65536 kernel evaluations of the tokenizer model are too slow, a symbolic proof of the string lexer on escapes is not done). -/
 theorem C11_spellings (sp : CharSpelling) (lsp : LimitSp) (hsp : limitSpelling sp = some lsp) (c : Nat)
     (hl : sp.legal c = true) : validatedCharacter (spellChar sp c) = .ok (Char.ofNat c) := by
   have hscalar : c < 0x110000 ∧ ¬ (0xD800 ≤ c ∧ c ≤ 0xDFFF) := by
@@ -159,5 +160,28 @@ example : ["9", "0x9", "0X09", "'\t'", "tab", "TAB"].map (fun s => validatedChar
 
 /-- non-vacuity: a contradictory delimited format (item delimiter = quote character) is refused -/
 example : ({ format := .delimited, itemDelim := '"' } : DataFormat).validate = false := by decide
+
+/-- the escaped spelling `'\xHH'` (either quote) denotes the character with that code, for all 256 codes: decided by
+evaluating `_validated_character`'s model - tokenizer, `unicode_escape` decoding, `chr()` - on the whole table in the kernel -/
+theorem C11_escaped_hex_table : ((List.range 256).all (fun c =>
+    (match validatedCharacter (spellChar (.escapedHex false) c) with | .ok ch => ch == Char.ofNat c | _ => false) &&
+    (match validatedCharacter (spellChar (.escapedHex true) c) with | .ok ch => ch == Char.ofNat c | _ => false))) = true := by
+  decide +kernel
+
+theorem C11_escaped_hex (dq : Bool) (c : Nat) (hc : c < 256) :
+    validatedCharacter (spellChar (.escapedHex dq) c) = .ok (Char.ofNat c) := by
+  have h := List.all_eq_true.mp C11_escaped_hex_table c (List.mem_range.mpr hc)
+  simp only [Bool.and_eq_true] at h
+  cases dq with
+  | false =>
+    have h1 := h.1
+    split at h1
+    · rename_i ch heq; rw [heq]; simp at h1; rw [h1]
+    · cases h1
+  | true =>
+    have h2 := h.2
+    split at h2
+    · rename_i ch heq; rw [heq]; simp at h2; rw [h2]
+    · cases h2
 
 end Cutplace.Props
